@@ -251,6 +251,15 @@ func Families(b Bounds) []*Family {
 	var fs []*Family
 	valid := func(t Text) bool { return t.Valid }
 
+	// nothing inserted at all (and nothing but the empty pattern): no text matches, no key has results
+	fs = append(fs, &Family{
+		Name:  "no-patterns",
+		Desc:  "the empty pattern set and the set {\"\"}: built tries without any pattern; all texts of length <= 3 over {a,b}, keys \"\", a, ab",
+		Pats:  []string{""},
+		Sets:  [][]int{{}, {0}},
+		Hists: []History{HAll},
+		Texts: texts(AlphaAB, 3, nil), Keys: []string{"", "a", "ab"}})
+
 	ab := common.AllStrings(AlphaAB, b.ABPatLen)
 	fs = append(fs, &Family{
 		Name: "structure-ab",
@@ -423,6 +432,15 @@ func Families(b Bounds) []*Family {
 		Desc: fmt.Sprintf("the widths pattern sets (1..%d patterns of 0..%d runes, history insert-all) against every byte string of length <= %d over {a, C3, A9, EF, BF, BD, FF} that is NOT valid UTF-8 (the valid ones belong to the widths family); the same byte strings of length <= 3 as keys", b.WSet, b.WPatLen, b.BText),
 		Pats: w, Sets: wsets, Hists: []History{HAll},
 		Texts: texts(AlphaBytes, b.BText, func(t Text) bool { return !t.Valid }), Keys: invalidKeys(3)})
+	// the ends of the UTF-8 encoding ranges: patterns made of the first / last rune of each width,
+	// texts over the bytes that delimit lead and continuation ranges (valid and invalid alike)
+	edgePats := []string{"\x7f", "\u0080", "\u07ff", "\u0800", "\uffff", "\U00010000", "\U0010ffff", "a\u0080", "\u0080a", "\u07ff\u0800"}
+	edgeBytes := []string{"a", "\x7f", "\x80", "\xbf", "\xc2", "\xdf", "\xe0", "\xa0", "\xef", "\xf0", "\x90", "\xf4", "\x8f"}
+	fs = append(fs, &Family{
+		Name: "utf8-range-ends",
+		Desc: fmt.Sprintf("patterns from {U+007F, U+0080, U+07FF, U+0800, U+FFFF, U+10000, U+10FFFF, aU+0080, U+0080a, U+07FFU+0800} (sets of 1..2), history insert-all, every byte string of length <= %d over {61,7F,80,BF,C2,DF,E0,A0,EF,F0,90,F4,8F} as text (valid or not), those of length <= 2 as keys", b.BText),
+		Pats: edgePats, Sets: subsets(len(edgePats), 1, 2), Hists: []History{HAll},
+		Texts: texts(edgeBytes, b.BText, nil), Keys: common.AllStrings(edgeBytes, 2)})
 	_ = valid
 	return fs
 }
